@@ -11,6 +11,8 @@ sys.path.insert(0, os.path.dirname(os.path.abspath(__file__)))
 import vlib
 
 V = vlib.VERIF
+_p = os.path.join(vlib.VERIF, "known_findings.json")
+old_kf = json.load(open(_p)) if os.path.exists(_p) else {"findings": [], "fixed": []}
 groups = collections.defaultdict(set)
 example = {}
 count = collections.Counter()
@@ -24,6 +26,8 @@ for d in sys.argv[1:]:
             scope = r.get("scope") or vlib.engine_scope(r.get("api", ""))
             import re as _re
             site = r.get("strategy") or _re.sub(r"[^A-Za-z0-9.]+", "_", r.get("api", "any").split("[")[0].split("(")[0])[:40]
+            if vlib.class_finding(old_kf, r):
+                continue
             gid = "KF-%s-%s-%s-%s" % (r["prop"], scope or "api", site, r.get("mode") or "first")
             k = vlib.failure_key(r)
             groups[gid].add(vlib.key_hash(k))
@@ -36,7 +40,7 @@ notes = {f["id"]: f for f in old.get("findings", [])}
 os.makedirs(os.path.join(V, "kf"), exist_ok=True)
 for f in glob.glob(os.path.join(V, "kf", "*.keys.gz")):
     os.remove(f)
-findings = []
+findings = [f for f in old.get("findings", []) if f.get("class")]
 for gid in sorted(groups):
     e = example[gid]
     wf = f"kf/{gid}.keys.gz"
